@@ -30,6 +30,15 @@ struct Cfg {
     #[serde(default)]
     zeros: usize,
 }
+/// one library call: its value, or the panic recorded under the operation's name (the other operations still run)
+fn op(res: &mut serde_json::Map<String, Value>, panics: &mut Vec<(String, String)>, name: &str, f: impl FnOnce() -> Value) {
+    match guarded(f) {
+        Ok(v) => {
+            res.insert(name.into(), v);
+        },
+        Err(p) => panics.push((name.to_string(), p)),
+    }
+}
 fn t(v: &[u64]) -> Vec<Toy> {
     v.iter().map(|x| Toy::new(*x)).collect()
 }
@@ -45,7 +54,7 @@ pub fn main(args: &[String]) -> i32 {
     let cfgs: Vec<Cfg> = f.lines().map(|l| l.unwrap()).filter(|l| !l.trim().is_empty()).map(|l| serde_json::from_str(&l).expect("cfg")).collect();
     let mut out = std::io::BufWriter::new(std::fs::File::create(outp).unwrap());
     let mut rng = Rng(seed);
-    let mut panics: Vec<Value> = vec![];
+    let panics: std::cell::RefCell<Vec<Value>> = std::cell::RefCell::new(vec![]);
     for c in &cfgs {
         let r = guarded(|| {
             let mut evs: Vec<Value> = vec![];
@@ -65,22 +74,23 @@ pub fn main(args: &[String]) -> i32 {
                 }
                 let ys: Vec<Toy> = (0..c.npts).map(|_| Toy::new(rng.below(P))).collect();
                 let mut res = serde_json::Map::new();
-                res.insert("add".into(), json!(u(&polynom::add(&a, &b))));
-                res.insert("sub".into(), json!(u(&polynom::sub(&a, &b))));
-                res.insert("mul".into(), json!(u(&polynom::mul(&a, &b))));
-                res.insert("scale".into(), json!(u(&polynom::mul_by_scalar(&a, k))));
-                res.insert("degree_a".into(), json!(polynom::degree_of(&a)));
-                res.insert("degree_b".into(), json!(polynom::degree_of(&b)));
-                res.insert("rlz_a".into(), json!(u(&polynom::remove_leading_zeros(&a))));
+                let mut oppanics: Vec<(String, String)> = vec![];
+                op(&mut res, &mut oppanics, "add", || json!(u(&polynom::add(&a, &b))));
+                op(&mut res, &mut oppanics, "sub", || json!(u(&polynom::sub(&a, &b))));
+                op(&mut res, &mut oppanics, "mul", || json!(u(&polynom::mul(&a, &b))));
+                op(&mut res, &mut oppanics, "scale", || json!(u(&polynom::mul_by_scalar(&a, k))));
+                op(&mut res, &mut oppanics, "degree_a", || json!(polynom::degree_of(&a)));
+                op(&mut res, &mut oppanics, "degree_b", || json!(polynom::degree_of(&b)));
+                op(&mut res, &mut oppanics, "rlz_a", || json!(u(&polynom::remove_leading_zeros(&a))));
                 // long division: admissible when the divisor is non-zero and of degree at most that of the dividend
                 let b_zero = b.iter().all(|x| *x == Toy::ZERO);
-                let div_ok = !b_zero && polynom::degree_of(&a) >= polynom::degree_of(&b);
+                let div_ok = !b_zero && guarded(|| polynom::degree_of(&a) >= polynom::degree_of(&b)).unwrap_or(false);
                 res.insert("div_ok".into(), json!(div_ok));
-                res.insert("div".into(), json!(if div_ok { u(&polynom::div(&a, &b)) } else { vec![] }));
+                op(&mut res, &mut oppanics, "div", || json!(if div_ok { u(&polynom::div(&a, &b)) } else { vec![] }));
                 // synthetic division by x^da - db: admissible when db # 0 and the dividend is longer than da
                 let syn_ok = c.db % P != 0 && a.len() > c.da;
                 res.insert("syn_ok".into(), json!(syn_ok));
-                res.insert("syn".into(), json!(if syn_ok { u(&polynom::syn_div(&a, c.da, Toy::new(c.db))) } else { vec![] }));
+                op(&mut res, &mut oppanics, "syn", || json!(if syn_ok { u(&polynom::syn_div(&a, c.da, Toy::new(c.db))) } else { vec![] }));
                 let roots: Vec<Toy> = xs.iter().take(2.min(xs.len())).cloned().collect();
                 let synr_ok = !roots.is_empty() && a.len() > roots.len();
                 res.insert("synr_ok".into(), json!(synr_ok));
@@ -91,11 +101,17 @@ pub fn main(args: &[String]) -> i32 {
                 } else {
                     vec![]
                 }));
-                res.insert("eval_a".into(), json!(polynom::eval(&a, k).v()));
-                res.insert("eval_many".into(), json!(u(&polynom::eval_many(&a, &xs))));
-                res.insert("from_roots".into(), json!(u(&polynom::poly_from_roots(&xs))));
-                res.insert("interp".into(), json!(u(&polynom::interpolate(&xs, &ys, true))));
-                res.insert("interp_keep".into(), json!(u(&polynom::interpolate(&xs, &ys, false))));
+                op(&mut res, &mut oppanics, "eval_a", || json!(polynom::eval(&a, k).v()));
+                op(&mut res, &mut oppanics, "eval_many", || json!(u(&polynom::eval_many(&a, &xs))));
+                op(&mut res, &mut oppanics, "from_roots", || json!(u(&polynom::poly_from_roots(&xs))));
+                op(&mut res, &mut oppanics, "interp", || json!(u(&polynom::interpolate(&xs, &ys, true))));
+                op(&mut res, &mut oppanics, "interp_keep", || json!(u(&polynom::interpolate(&xs, &ys, false))));
+                for (name, what) in &oppanics {
+                    panics.borrow_mut().push(json!({"cfg": format!("{:?}", c), "what": format!("{}: {}", name, panic_key(what))}));
+                }
+                if !oppanics.is_empty() {
+                    return evs;
+                }
                 evs.push(json!({"ev": "polys", "a": c.a, "b": c.b, "k": c.k, "da": c.da, "db": c.db, "roots": u(&roots), "xs": u(&xs), "ys": u(&ys), "res": Value::Object(res)}));
                 // batched interpolation over rows of 4 points
                 let rows = 1 + c.npts % 3;
@@ -126,7 +142,7 @@ pub fn main(args: &[String]) -> i32 {
                 let mut vals: Vec<Toy> = (0..n).map(|_| Toy::new(1 + rng.below(P - 1))).collect();
                 // zeros at chosen positions: none / first and last / every third
                 match c.zeros {
-                    1 => {
+                    1 if n > 0 => {
                         vals[0] = Toy::ZERO;
                         vals[n - 1] = Toy::ZERO;
                     },
@@ -145,7 +161,7 @@ pub fn main(args: &[String]) -> i32 {
                 add_in_place(&mut added, &other);
                 let mut macc = vals.clone();
                 mul_acc(&mut macc, &other, s);
-                let chk: Vec<usize> = if n <= 64 { (0..n).collect() } else { (0..48).map(|_| rng.below(n as u64) as usize).chain([0, 1, n / 2, n - 2, n - 1]).collect() };
+                let chk: Vec<usize> = if n == 0 { vec![] } else if n <= 64 { (0..n).collect() } else { (0..48).map(|_| rng.below(n as u64) as usize).chain([0, 1, n / 2, n - 2, n - 1]).collect() };
                 evs.push(json!({"ev": "vectors", "len": n, "b": b.v(), "s": s.v(), "vals": u(&vals), "other": u(&other), "series": u(&series), "series_off": u(&series_off),
                                 "inv": u(&inv), "added": u(&added), "macc": u(&macc), "chk": chk}));
             }
@@ -157,10 +173,10 @@ pub fn main(args: &[String]) -> i32 {
                     writeln!(out, "{}", e).unwrap();
                 }
             },
-            Err(p) => panics.push(json!({"cfg": format!("{:?}", c), "what": panic_key(&p)})),
+            Err(p) => panics.borrow_mut().push(json!({"cfg": format!("{:?}", c), "what": panic_key(&p)})),
         }
     }
     out.flush().unwrap();
-    println!("{}", json!({"configs": cfgs.len(), "panics": panics}));
+    println!("{}", json!({"configs": cfgs.len(), "panics": *panics.borrow()}));
     0
 }
